@@ -50,12 +50,20 @@ META = {
     'modelled': ['SQLite engine', 'id allocation (AUTOINCREMENT high-water mark per root table, kept by the driver)',
                  'InheritableIteration batching / child prefetch is modelled as one get per selected id',
                  'which table an id comparison is rewritten onto (_patch_id_clause) is not modelled (invisible without orphans)',
-                 'deleteMany / deleteBy are modelled per id (a destroy touches only rows of its own id)'],
+                 'deleteMany / deleteBy are modelled per id (a destroy touches only rows of its own id)',
+                 'the referencing table (plain class R with cascade=False / null / True keys to the levels) is not in the '
+                 'model: which levels are restricted is read from R by raw SELECT and given to the model as data',
+                 'connections: a state is a map connection -> tables; a transaction is begin/rollback/commit of the default '
+                 'database (file-backed in those cases, so that what bypasses the transaction is committed on its own)'],
     'assumptions': ['only successful operations plus NotFound / AttributeError are modelled; failure atomicity of a child '
                     'INSERT and of a multi-level set() is property C06',
                     'objects are fetched through a class for every operation (public API); destroying the private '
                     '`_parent` instance directly or assigning the reserved `childName` column is outside the property',
                     'integer columns without NULLs in the filters',
+                    'a destroy refused by a cascade=False reference to a NON-root level leaves the rows below without their '
+                    'root row: open finding of property C06 (C06:inheritable-destroySelf-fails-after-parent-row-deleted); '
+                    'kept as C15_refused_destroy_keeps_no_orphan_full_FALSE, replayed as a note, generated histories put '
+                    'restrictions on root-level rows only; bulk deletes are not generated while a restriction exists',
                     'documented limitation, not checked: Sub.select(orderBy="<own column name>") fails because the query '
                     'runs on the root table (docs/Inheritance.rst)'],
     'exhaustive': False,
@@ -89,7 +97,7 @@ class Hier(object):
     default connection (in-memory, or file-backed when transactions must be isolated from it),
     `conn2` a second, independent in-memory database whose tables were created with
     `createTable(connection=conn2)`; `R` is a plain SQLObject class holding foreign keys to the
-    hierarchy's classes: `r<a>` cascade=False (root classes only), `n<a>` cascade='null',
+    hierarchy's classes: `r<a>` cascade=False, `n<a>` cascade='null',
     `c<a>` cascade=True."""
 
     def __init__(self, shape, filedb=False):
@@ -133,9 +141,10 @@ class Hier(object):
         ns = {'_connection': self.conn, 'sqlmeta': type('sqlmeta', (), {'registry': self.reg})}
         self.refcols = []
         for c, (par, ncols, inh) in enumerate(shape):
-            if par is None:
-                ns['r%d' % c] = ForeignKey('K%d' % c, cascade=False, default=None)
-                self.refcols.append(('r', c))
+            # (the generators put cascade=False references on root-level rows only; the lower-level
+            # columns serve the C06 witness)
+            ns['r%d' % c] = ForeignKey('K%d' % c, cascade=False, default=None)
+            self.refcols.append(('r', c))
             ns['n%d' % c] = ForeignKey('K%d' % c, cascade='null', default=None)
             ns['c%d' % c] = ForeignKey('K%d' % c, cascade=True, default=None)
             self.refcols += [('n', c), ('c', c)]
@@ -1154,6 +1163,7 @@ def run(ctx):
         results.append((shape, ops, cold, lines, impl, fails, len(all_lines)))
         all_lines.extend(lines)
     outs = ctx.model(all_lines)
+    run_sublevel_witness(ctx)
 
     reported = set()
     for idx, (shape, ops, cold, lines, impl, fails, off) in enumerate(results):
@@ -1194,6 +1204,36 @@ def run(ctx):
                 if not ctx.compare(stream, {'shape': desc['shape'], 'ops': ops, 'cold': cold, 'at': line},
                                    outs[off + j], impl[j]):
                     break
+
+
+# witness of C15_refused_destroy_keeps_no_orphan_full_FALSE: a cascade=False reference to a NON-root
+# level refuses after the levels above are deleted.  This is the open finding of property C06
+# (C06:inheritable-destroySelf-fails-after-parent-row-deleted): replayed and compared with the model
+# here, reported as a note only.
+SUBLEVEL_WITNESS = {'shape': [list(x) for x in BASE_SHAPE],
+                    'ops': [['create', 3, [[0, 0, 1]]], ['addref', 'restrict', 1, 1], ['destroy', 0, 1]]}
+
+
+def run_sublevel_witness(ctx):
+    shape = norm_shape(SUBLEVEL_WITNESS['shape'])
+    lines, impl, fails = run_case(shape, SUBLEVEL_WITNESS['ops'])
+    k = [j for j, l in enumerate(lines) if l.startswith('destroy')][0]
+    lines, impl = lines[:k + 2], impl[:k + 2]      # up to the dump after the refused destroy
+    orphan = any(kind.startswith('orphan') for _, kind, _ in fails)
+    ctx.case(('sublevel-restriction',), nontrivial=True, kind='C06 witness (note only)')
+    if orphan:
+        ctx.note('destroy refused by a cascade=False reference to a non-root level leaves the lower rows without '
+                 'their root row (%s): finding of property C06, not alarmed here; '
+                 'C15_refused_destroy_keeps_no_orphan_full_FALSE describes it' % impl[k])
+    else:
+        ctx.note('the sub-level restriction witness no longer leaves an orphan: '
+                 'C15_refused_destroy_keeps_no_orphan_full_FALSE describes code that has changed')
+    outs = ctx.model(lines)
+    if outs is not None:
+        for j, line in enumerate(lines):
+            if impl[j] is not None:
+                ctx.compare('destroy refused below the root level (C06 finding): model = real code',
+                            {'case': SUBLEVEL_WITNESS, 'at': line}, outs[j], impl[j])
 
 
 def replay(case):
